@@ -45,13 +45,13 @@ inductive Frag where
   | emptyObj
   | emptyArr
 
-def Frag.bytes {o : Opt} (q : Quoter o) : Frag → Bytes
+def Frag.bytes (quote : Bytes → Bytes) : Frag → Bytes
   | .null => [0x6e, 0x75, 0x6c, 0x6c]
   | .bool true => [0x74, 0x72, 0x75, 0x65]
   | .bool false => [0x66, 0x61, 0x6c, 0x73, 0x65]
   | .int i => intDigits i
   | .uint n => natDigits n
-  | .str s => q.quote s
+  | .str s => quote s
   | .num lit _ => lit
   | .emptyObj => [0x7b, 0x7d]
   | .emptyArr => [0x5b, 0x5d]
@@ -84,16 +84,16 @@ inductive OutTree where
   | obj (ms : List (Bytes × OutTree))     -- Go-side (unquoted) name × value
 
 mutual
-def OutTree.render {o : Opt} (q : Quoter o) : OutTree → Bytes
-  | .atom f => f.bytes q
-  | .arr ts => EncInv.arr (renderList q ts)
-  | .obj ms => EncInv.obj (renderMembers q ms)
-def renderList {o : Opt} (q : Quoter o) : List OutTree → List Bytes
+def OutTree.render (quote : Bytes → Bytes) : OutTree → Bytes
+  | .atom f => f.bytes quote
+  | .arr ts => EncInv.arr (renderList quote ts)
+  | .obj ms => EncInv.obj (renderMembers quote ms)
+def renderList (quote : Bytes → Bytes) : List OutTree → List Bytes
   | [] => []
-  | t :: ts => t.render q :: renderList q ts
-def renderMembers {o : Opt} (q : Quoter o) : List (Bytes × OutTree) → List (Bytes × Bytes)
+  | t :: ts => t.render quote :: renderList quote ts
+def renderMembers (quote : Bytes → Bytes) : List (Bytes × OutTree) → List (Bytes × Bytes)
   | [] => []
-  | (n, t) :: ms => (q.quote n, t.render q) :: renderMembers q ms
+  | (n, t) :: ms => (quote n, t.render quote) :: renderMembers quote ms
 end
 
 mutual
@@ -113,16 +113,16 @@ end
 mutual
 /-- Under `noDup`, the names of every object are pairwise distinct as JSON strings
 (what `seenIdxs`/namespaces/Go map keys guarantee in the code). -/
-def OutTree.WellFormed {o : Opt} (q : Quoter o) : OutTree → Prop
+def OutTree.WellFormed (o : Opt) (quote : Bytes → Bytes) : OutTree → Prop
   | .atom _ => True
-  | .arr ts => wfList q ts
-  | .obj ms => wfMembers q ms ∧ (o.noDup = true → ((renderMembers q ms).map fun m => nameKey m.1).Nodup)
-def wfList {o : Opt} (q : Quoter o) : List OutTree → Prop
+  | .arr ts => wfList o quote ts
+  | .obj ms => wfMembers o quote ms ∧ (o.noDup = true → ((renderMembers quote ms).map fun m => o.key m.1).Nodup)
+def wfList (o : Opt) (quote : Bytes → Bytes) : List OutTree → Prop
   | [] => True
-  | t :: ts => t.WellFormed q ∧ wfList q ts
-def wfMembers {o : Opt} (q : Quoter o) : List (Bytes × OutTree) → Prop
+  | t :: ts => t.WellFormed o quote ∧ wfList o quote ts
+def wfMembers (o : Opt) (quote : Bytes → Bytes) : List (Bytes × OutTree) → Prop
   | [] => True
-  | (_, t) :: ms => t.WellFormed q ∧ wfMembers q ms
+  | (_, t) :: ms => t.WellFormed o quote ∧ wfMembers o quote ms
 end
 
 end JsonV.Model.EncInv
